@@ -227,7 +227,7 @@ Lemma c02_planar :
      = 1 + fold_right Rplus 0 (map (fun i => v i * u i) (seq 0 n))) /\
   (forall (w u0 : list R) (b : R) (x : list R), let n := length w in
      length u0 = n -> length x = n ->
-     let u := planar_u ROps w u0 in
+     let u := planar_u ROps None w u0 in
      let act := planar_act ROps None (dot ROps x w + b) in
      let psi := vscale ROps (1 - act * act) w in
      let J := fun i j => (if Nat.eqb i j then 1 else 0) + nth i u 0 * nth j psi 0 in
@@ -236,7 +236,7 @@ Lemma c02_planar :
      planar_ld_fwd ROps None w u0 b x = ln (Rabs (detF n J)) /\ detF n J = 1 + dot ROps u psi) /\
   (forall (s : R) (w u0 : list R) (b : R) (x : list R), let n := length w in
      length u0 = n -> length x = n -> 0 < s -> dot ROps x w + b <> 0 ->
-     let u := planar_u ROps w u0 in
+     let u := planar_u ROps (Some s) w u0 in
      let act := planar_act ROps (Some s) (dot ROps x w + b) in
      let psi := vscale ROps (if Rltb act 0 then s else 1) w in
      let J := fun i j => (if Nat.eqb i j then 1 else 0) + nth i u 0 * nth j psi 0 in
@@ -247,8 +247,8 @@ Proof. exact (conj detF_rank1 (conj planar_tanh_ldj planar_lrelu_ldj)). Qed.
 
 Lemma c02_planar_det_pos : forall (ns : option R) (w u0 : list R) (b : R) (x : list R),
   length u0 = length w -> 0 < dot ROps w w ->
-  match ns with Some s => 0 < s <= 1 | None => True end ->
-  let u := planar_u ROps w u0 in
+  match ns with Some s => 0 < s | None => True end ->
+  let u := planar_u ROps ns w u0 in
   let act := planar_act ROps ns (dot ROps x w + b) in
   let psi := match ns with
              | Some s => vscale ROps (if Rltb act 0 then s else 1) w
